@@ -48,6 +48,11 @@ def main() -> int:
 
                     info = routes.write_records(tmp, item)
                     meta["runs"].append({"id": item["id"], "kind": "routes", **info})
+                elif item["kind"] == "events":
+                    from hv import events
+
+                    info = events.run_events(item, work, tmp)
+                    meta["runs"].append({"id": item["id"], "kind": "events", **info})
                 elif item["kind"] == "model":
                     rp, tr = runs.run_model_schedule(item["spec"], work, tmp, item["id"])
                     meta["runs"].append({"id": item["id"], "kind": "model", "lines": tr.n, "steps": item["spec"]["steps"]})
